@@ -18,7 +18,7 @@ from sim.core import driver, env
 
 PROPS = ["C02", "C04", "C08", "C09"]
 DET_RUNS = {"C02": 240, "C04": 200, "C08": 200, "C09": 12}
-MUT_RUNS = {"C02": 3000, "C04": 1600, "C08": 1600, "C09": 80}
+MUT_RUNS = {"C02": 3000, "C04": 2400, "C08": 1600, "C09": 80}
 
 
 def determinism(props, runs=None):
@@ -56,7 +56,7 @@ def _scratch_src():
     return base, dst
 
 
-def run_check_on(src, prop, runs, timeout=1500):
+def run_check_on(src, prop, runs, timeout=3000):
     e = dict(os.environ)
     e["VERIF_REPO_SRC"] = src
     e["PYTHONPATH"] = env.VERIF_ROOT
